@@ -61,6 +61,19 @@ func main() {
 	}
 	dump := len(os.Args) > 4
 	keep := false
+	// address classes (set by the orchestrator from the binary's symbol table): below staticEnd the binary's own
+	// segments (absolute addresses are kept); [arenaLo, arenaHi) the Go heap/stack arena (renamed per 2 KiB block);
+	// everything else is on-demand runtime metadata (one opaque token per address)
+	staticEnd, arenaLo, arenaHi := uint64(0x10000000), uint64(0xc000000000), uint64(0xd000000000)
+	if v, err := strconv.ParseUint(os.Getenv("CT_STATIC_END"), 16, 64); err == nil && v > 0 {
+		staticEnd = v
+	}
+	if v, err := strconv.ParseUint(os.Getenv("CT_ARENA_LO"), 16, 64); err == nil && v > 0 {
+		arenaLo = v
+	}
+	if v, err := strconv.ParseUint(os.Getenv("CT_ARENA_HI"), 16, 64); err == nil && v > 0 {
+		arenaHi = v
+	}
 	starts := map[uint64]bool{}
 	for _, r := range ranges {
 		starts[r[0]] = true
@@ -172,7 +185,7 @@ func main() {
 		if !keep {
 			continue
 		}
-		if kind != "I" && addr >= 0xc000000000 {
+		if kind != "I" && addr >= arenaLo && addr < arenaHi {
 			blk := addr >> 11
 			id, ok := blocks[blk]
 			if !ok {
@@ -180,7 +193,7 @@ func main() {
 				blocks[blk] = id
 			}
 			rest = fmt.Sprintf("h%d+%x%s", id, addr&0x7ff, rest[c:])
-		} else if kind != "I" && addr >= 0x10000000 {
+		} else if kind != "I" && addr >= staticEnd {
 			id, ok := metas[addr]
 			if !ok {
 				id = len(metas)
